@@ -191,10 +191,15 @@ fn explore_confirm_history(depth: usize, out: &mut Outcome, viol: &mut Vec<Struc
 struct TrackModel {
     last: i64,
     ticks: BTreeMap<i64, (usize, usize)>,
+    /// the same counters, never forgotten (what was really received, window or not)
+    all: BTreeMap<i64, (usize, usize)>,
 }
 impl TrackModel {
     fn complete(&self, t: i64) -> bool {
         self.ticks.get(&t).is_some_and(|(e, r)| *e != 0 && e == r)
+    }
+    fn really_complete(&self, t: i64) -> bool {
+        self.all.get(&t).is_some_and(|(e, r)| *e != 0 && e == r)
     }
     fn contains(&self, t: i64) -> bool {
         t <= self.last && (self.last - t >= 64 || self.complete(t))
@@ -217,6 +222,8 @@ fn build_tracker(steps: &[(i64, usize)]) -> Result<(ServerMutateTicks, TrackMode
         }
         let e = m.ticks.entry(t).or_insert((k, 0));
         e.1 += 1;
+        let a = m.all.entry(t).or_insert((k, 0));
+        a.1 += 1;
         let lo = m.last - 64;
         m.ticks.retain(|tt, _| *tt > lo);
     }
@@ -246,6 +253,12 @@ fn explore_tracker(depth: usize, out: &mut Outcome, viol: &mut Vec<StructViolati
             let in_window = m.last - t < 64;
             if in_window && f != m.complete(t) {
                 viol.push(StructViolation { cell: "c12a-mutate-ticks", history: show(), query: "return value of the last confirm".into(), detail: format!("returned {f}, model says complete = {}", m.complete(t)), oracle: "query-mismatch" });
+                continue;
+            }
+            // outside the window the structure cannot know: it may stay silent, but it must not
+            // report a tick as fully received of which messages are still missing
+            if !in_window && f && !m.really_complete(t) {
+                viol.push(StructViolation { cell: "c12a-mutate-ticks", history: show(), query: "return value of the last confirm".into(), detail: format!("returned true for tick {} outside the window although only {:?} (expected, received) of its messages were confirmed", tick(t).get(), m.all.get(&t)), oracle: "query-mismatch" });
                 continue;
             }
         }
@@ -303,7 +316,35 @@ fn explore_tracker(depth: usize, out: &mut Outcome, viol: &mut Vec<StructViolati
                 let mut next = hist.clone();
                 next.push((t, k));
                 match build_tracker(&next) {
-                    Ok((h2, _, _)) => {
+                    Ok((h2, m2, fired2)) => {
+                        // The return value belongs to the transition, not to the state reached
+                        // (a confirmation outside the window leaves the state unchanged).
+                        let f = *fired2.last().unwrap();
+                        let in_window = m2.last - t < 64;
+                        if !in_window && f && !m2.really_complete(t) {
+                            let mut hh = show();
+                            hh.push(format!("confirm({}, {k})", tick(t).get()));
+                            viol.push(StructViolation {
+                                cell: "c12a-mutate-ticks",
+                                history: hh,
+                                query: "return value of the last confirm".into(),
+                                detail: format!("returned true for tick {} outside the window although (expected, received) = {:?}", tick(t).get(), m2.all.get(&t)),
+                                oracle: "query-mismatch",
+                            });
+                            continue;
+                        }
+                        if in_window && f != m2.complete(t) {
+                            let mut hh = show();
+                            hh.push(format!("confirm({}, {k})", tick(t).get()));
+                            viol.push(StructViolation {
+                                cell: "c12a-mutate-ticks",
+                                history: hh,
+                                query: "return value of the last confirm".into(),
+                                detail: format!("returned {f}, model says complete = {}", m2.complete(t)),
+                                oracle: "query-mismatch",
+                            });
+                            continue;
+                        }
                         if visited.insert(format!("{h2:?}")) {
                             frontier.push_back(next);
                         }
